@@ -606,7 +606,7 @@ class Path(PathDeprecations):
                 pdir = os.path.realpath(os.path.join(abs_path, ".."))
                 if not os.path.isdir(pdir) and mode.count("c") == 2:
                     ppdir = None
-                    while not os.path.isdir(pdir) and pdir != ppdir:
+                    while not os.access(pdir, os.F_OK) and pdir != ppdir:
                         ppdir = pdir
                         pdir = os.path.realpath(os.path.join(pdir, ".."))
                 if not os.path.isdir(pdir):
